@@ -84,6 +84,7 @@ func frexp(f float64) (float64, int) {
 func (x *c09) one(in []byte) {
 	c := x.c
 	priv := append([]byte(nil), in...)
+	stepsSetBudget(1 << 60) // decoding is C01's matter: no step budget here
 	ps, err, pan := safeDgram(priv)
 	c.T(1)
 	if pan != "" {
